@@ -1131,8 +1131,10 @@ func racePass(c *engine.Check) {
 	bin := filepath.Join(root, ".build", "c20race.test")
 	args := []string{"test", "-c", "-race", "-vet=off", "-o", bin}
 	if ov := os.Getenv("VERIF_MUTANT_OVERLAY"); ov != "" {
-		bin = filepath.Join(root, ".build", "c20race.mut.test")
+		// one binary per process: several runs against injected changes may be in flight at once
+		bin = filepath.Join(root, ".build", fmt.Sprintf("c20race.mut.%d.test", os.Getpid()))
 		args[5] = bin
+		defer os.Remove(bin)
 		args = append(args, "-overlay", ov)
 	}
 	args = append(args, "./checks/c20/race")
@@ -1157,7 +1159,7 @@ func racePass(c *engine.Check) {
 		wg.Add(1)
 		go func(i int) {
 			defer wg.Done()
-			run := exec.Command(bin, "-test.run", "^TestRace$", "-test.count", "1", "-test.timeout", "0")
+			run := exec.Command(bin, "-test.run", "^TestRace$", "-test.count", "1", "-test.timeout", engine.Pick(c, "600s", "3000s"))
 			run.Env = append(append([]string{}, env...), fmt.Sprintf("C20_RACE_SHARD=%d/%d", i, shards))
 			out, err := run.CombinedOutput()
 			outs[i], errs[i] = string(out), err
@@ -1218,6 +1220,10 @@ func racePass(c *engine.Check) {
 		return m[len(m)-1][1]
 	}
 	if len(sites) == 0 {
+		if err != nil && strings.Contains(s, "test timed out") {
+			c.Extra("race_pass_unfinished", "the free-running pass did not finish within its time limit: no verdict from this pass")
+			return
+		}
 		if err != nil {
 			c.Internal("race pass failed without a race report: " + tail(s, 1500))
 			return
